@@ -430,6 +430,7 @@ class DictNode(BaseNode):
         self.args = args
         self.rcurl = rcurl
 
+@dataclass(unsafe_hash=True, init=False)
 class EmptyNode(BaseNode):
     pass
 
